@@ -532,6 +532,17 @@ def _run(ctx, rng, root):
         k += 1
         batches.append((ch, n, i, o))
     leg_b(ctx, root, batches, "rot")
+    # long values: a multi-byte character straddling every power-of-two offset up to 64 KiB (pipe and read-buffer
+    # boundaries of "$(printf %s "$x")", here-strings, …) for every character width and phase
+    batches = []
+    for w, ch in ((2, "\u00e9"), (3, "\u20ac"), (4, "\U0001f600")):
+        for ph in range(w):
+            for total in ((5000, 70000) if ctx.quick else (5000, 17000, 70000, 120000)):
+                v = "a" * ph + ch * ((total - ph) // w) + ("\n" if ph == 1 else "")
+                n, i, o = cmb[k % len(cmb)]
+                k += 1
+                batches.append(([v], n, i, o))
+    leg_b(ctx, root, batches, "long")
     leg_redirect(ctx, cvals + small + mid + rnd, "all")
     ctx.cov["rule"] = (
         "values: every string over a %d-character adversarial alphabet up to length 2 (full cross product with %d word "
